@@ -13,7 +13,7 @@ Local Open Scope Z_scope.
 Section CheckSound.
   Context {P O : Type} `{EqDec P}.
   Variable validate : P -> outcome.
-  Variable gx : P -> bool.
+  Variable gx mx : P -> bool.
   Variable path : P -> O -> option res.
   Variable defaults : P.
   Variable base : Z.
@@ -25,7 +25,7 @@ Section CheckSound.
   Hypothesis Hna : forall p o r,
     validate p = Ok -> small p -> wf o -> path p o = Some r -> res_outcome r <> Abort.
 
-  Notation upd := (update_with validate gx).
+  Notation upd := (update_with validate gx mx).
   Notation cops := (check_ops path defaults base blocker).
 
   Definition op_of (e : O * Z * O * Z) : O := let '(os, _, _, _) := e in os.
@@ -47,7 +47,7 @@ Section CheckSound.
   Proof.
     intros Hc. destruct (corr_update_facts c Hc) as (Hb & Hv & Ha).
     unfold prop_update.
-    destruct (update_with_cases validate gx (k_via c) (k_params c) (k_before c)) as [[Hs _]|(Hvia & Hok & He)].
+    destruct (update_with_cases validate gx mx (k_via c) (k_params c) (k_before c)) as [[Hs _]|(Hvia & Hok & He)].
     - rewrite Hs in Ha. rewrite Ha, eqb_refl. cbn [negb]. rewrite !andb_false_r. reflexivity.
     - assert (k_via c =? 1 = false) as -> by lia.
       rewrite Hok in Hv. simpl in Hv. rewrite <- Hv. reflexivity.
@@ -189,11 +189,11 @@ Inductive mspec :=
 
 Definition model_case_of (m : mspec) : case :=
   match m with
-  | MCS via p ops => CaseCS (model_mcase validate_cs (fun _ => true) cs_path cs_defaults via p ops)
-  | MFM via p ops => CaseFM (model_mcase validate_fm (fun _ => true) fm_path fm_defaults via p ops)
-  | MHT via p ops => CaseHT (model_mcase validate_ht (fun _ => true) ht_path ht_defaults via p ops)
-  | MSV via p ops => CaseSV (model_mcase validate_sv (fun _ => true) sv_path sv_defaults via p ops)
-  | MTK via p ops => CaseTK (model_mcase validate_tk (fun p => tk_registered (c_denom (tk_fee p))) tk_path tk_defaults via p ops)
+  | MCS via p ops => CaseCS (model_mcase validate_cs (fun _ => true) (fun _ => true) cs_path cs_defaults via p ops)
+  | MFM via p ops => CaseFM (model_mcase validate_fm (fun _ => true) (fun _ => true) fm_path fm_defaults via p ops)
+  | MHT via p ops => CaseHT (model_mcase validate_ht (fun _ => true) (fun _ => true) ht_path ht_defaults via p ops)
+  | MSV via p ops => CaseSV (model_mcase validate_sv (fun _ => true) (fun _ => true) sv_path sv_defaults via p ops)
+  | MTK via p ops => CaseTK (model_mcase validate_tk tk_fee_registered tk_fee_registered tk_path tk_defaults via p ops)
   end.
 
 Definition mspec_wf (m : mspec) : Prop :=
